@@ -262,6 +262,8 @@ def gen_refused_then_foreign(rng, i):
 
 
 def run_one(desc):
+    if desc.get("family") == "chain":
+        return _chain_as_own(desc)
     if desc.get("kind") == "comb":
         return run_comb(desc)
     s, ctx, out = sc.run_stack(desc, props=("C02", "C18"))
@@ -295,8 +297,24 @@ def run_one(desc):
             "sample": {"desc": {k: desc[k] for k in ("base", "layers", "clients")}, "log_len": len(s.log)} if desc.get("idx", 1) == 0 else None}
 
 
+def _chain_as_own(desc):
+    """a two-stage chain scenario of C13 (callback registration racing the completion), reported under this property"""
+    from props import C13
+    r = C13.run_chain(desc)
+    for h in r["hits"]:
+        h["sig"] = h["sig"].replace("C13/", "C02/", 1)
+    r["verdicts"] = []
+    return r
+
+
 def extended_search(seed, tier, broken):
     from run import run_scenarios
+    from props import C13
+    h = C13.pair_race_search(90 if tier == "quick" else 600)
+    if h is not None:
+        h = dict(h)
+        h["sig"] = h["sig"].replace("C13/", "C02/", 1)
+        return h
     for extra in range(1, 4 if tier == "quick" else 10):
         descs = list(gen_scenarios(seed + 1000 * extra, "quick"))
         for r in run_scenarios("props.C02", descs, budget_s=100):
